@@ -94,7 +94,8 @@ def run(ck, P):
         elif op == "++":
             base = lv[:-len(".tokens")]
             timer_atom = "(src->userptr == &%s)" % base
-            ok = f.name == "push_evt" and has(facts, "(%s < %s.burst)" % (lv, base))
+            ok = f.name == "push_evt" and (has(facts, "(%s < %s.burst)" % (lv, base)) or has(facts, "(%s.burst > %s)" % (base, lv))
+                                           or has(facts, "(%s >= %s.burst)" % (lv, base), False) or has(facts, "(%s.burst <= %s)" % (base, lv), False))
             # the increment is under "this is the bucket's own internal timer", however the two tests are spelt (boolean locals, a saved
             # copy of the user pointer, in place)
             rf_ = rules.resolve_atoms(f, facts or ())
